@@ -64,6 +64,7 @@ class Spec(object):
         self.next_eip = next_eip            # 32-bit term
         self.eip = None                     # post eip (None: falls through)
         self.assume = []                    # conditions under which the instruction does not fault (#DE)
+        self.stores = []                    # (address term, value term) in program order
 
     # -- state access ------------------------------------------------------------------------------
     def pre(self, name, size=32):
@@ -106,6 +107,7 @@ class Spec(object):
 
     def store(self, addr, val):
         self.c.mem_reads.append((addr, val.size() // 8))
+        self.stores.append((addr, val))
         self.mem = self.c.store(self.mem, addr, val, val.size() // 8)
 
     def addr_of(self, e):
@@ -523,6 +525,9 @@ def sem(name, S, args, info):
             c2.ids[('esp', 32)] = esp + bv(nb, 32)
             c2.mem = S.c.mem
             ad = zx(ir2smt.tr(a[0].arg, c2), 32)
+            for k_, v_ in c2.ids.items():
+                if k_ not in S.c.ids:
+                    S.c.ids[k_] = v_
             S.store(ad, v)
         else:
             wr(a[0], v)
